@@ -29,6 +29,15 @@ def havoc_lvalue(interp, expr_src, env, tag="havoc"):
         cur = obj.fields.get(node.attr)
         if cur is None:
             raise Unsupported(f"havoc: {expr_src} has no current value")
+        concrete_container = (isinstance(cur, (VList, VDict)) and cur.concrete) or (isinstance(cur, VSet) and cur.arr is None)
+        if concrete_container and obj.model is not None and node.attr in obj.model.fields:
+            # a literal container ([] / set() / {}) about to be changed in a loop: from here on it is a symbolic value
+            # of the shape the model declares for the field
+            from .values import parse_shape
+            sh = obj.model.fields[node.attr]
+            obj.fields[node.attr] = interp.fresh(parse_shape(sh, interp.reg.models) if isinstance(sh, str) else sh,
+                                                 f"{tag}_{node.attr}")
+            return
         if _havoc_inplace(interp, cur, tag):
             return
         obj.fields[node.attr] = fresh_like(interp, cur, f"{tag}_{node.attr}")
